@@ -15,17 +15,21 @@ TRUSTED = [
     "harness/gen_spectrum.py + harness/translate.py (Python-ast translator of get_structure_factor; validated on every "
     "run by interval sample goals and by the correspondence run)",
     "Interval tactic (sample goals only)",
-    "oracle numpy.fft.fftn(norm='ortho'): premise dft_spec (Parseval, zero mode, homogeneity, shift / reflection / "
-    "axis-transposition identities), proved for the executable N=4 transform, checked against numpy on every sample",
+    "oracle numpy.fft.fftn(norm='ortho') computes the mathematical DFT up to rounding: the transform itself is DEFINED in "
+    "Coq for every shape (Model.Spectrum.dftc / dft_math, iterated 1-d transforms over pairs of reals) and PROVED to satisfy "
+    "dft_spec (character orthogonality, Parseval in n dimensions, zero mode, homogeneity, cyclic shift, reflection, axis "
+    "transposition); the C16_math_* theorems carry no DFT premise.  Per sample numpy is compared with a direct O(N^2) "
+    "evaluation of the definition (arrays of at most 96 cells) and with the identities of dft_spec (all sizes), 1e-12",
     "oracle models numpy.fft.fftfreq / max / linspace and pde.tools.math.SmoothData1D (Model/Spectrum.v, modelled after "
     "numpy 2.x / py-pde 0.58.0; compared with the libraries on every sample)",
     "real-number model: floating-point evaluation differs by rounding (tolerances stated in the rule)",
 ]
 ASSUME = [
-    "theorems are over Coq's R; the implementation computes in binary64",
-    "the n-dimensional DFT is not defined in Coq: every theorem that needs it has the visible premise dft_spec dom F",
+    "theorems are over Coq's R; the implementation computes in binary64 (float32 fields: single precision)",
+    "the generic theorems keep the visible premise dft_spec dom F (satisfied by the executable N = 4 and small-shape "
+    "instances and by the mathematical DFT); the C16_math_* theorems are their instances for the mathematical DFT",
     "numpy broadcasting (np.add.outer, .flat order = C order) is modelled by all_idx / k2s",
-    "field non-zero (sum of squares <> 0), all axes periodic, Cartesian grid",
+    "field non-zero (sum of squares <> 0), positive axis lengths, Cartesian grid (periodicity flags only produce a warning)",
 ]
 RULE = ("cases: fields generated from random.Random(seed) on periodic Cartesian grids, d = 1-3, even/odd shapes, "
         "anisotropic dyadic spacings and origins; kinds noise / plane waves / droplets / constant+noise; per case the "
@@ -320,7 +324,7 @@ def _fftfreq_cases(ctx):
 def check(ctx: vlib.Ctx) -> int:
     sc.quiet()
     rng = random.Random(ctx.seed)
-    ok, fresh = vlib.prove_with_fallback(ctx, ["Proofs/C16.vo", "Proofs/SpectrumDFTSmall.vo", "Model/Samples.vo"],
+    ok, fresh = vlib.prove_with_fallback(ctx, ["Proofs/C16.vo", "Proofs/SpectrumDFTSmall.vo", "Proofs/SpectrumMathInst.vo", "Model/Samples.vo"],
                                          gens=["Gen_spectrum"])
     fell_back = bool(ctx.extra.get("translator_fell_back"))
     ctx.tie.append(("translator (Gen_spectrum regenerated from the current source: norm keyword, .flat slices, normalisation, "
@@ -357,6 +361,7 @@ def check(ctx: vlib.Ctx) -> int:
         if i < 3:
             ctx.sample(sc.canon(c))
         d64 = data.astype(float)
+        ctx.count("fftn_vs_definition", "direct O(N^2) evaluation" if data.size <= 96 else "identities only")
         for name in sc.check_fftn_spec(d64, rng):
             spec_bad.setdefault(name, sc.canon(c))
         for name in sc.check_numpy_helpers(int(c["shape"][0]), float(c["h"][0])):
@@ -371,7 +376,8 @@ def check(ctx: vlib.Ctx) -> int:
             failures.append({"what": f"get_structure_factor raises or returns a result of the wrong kind: {type(e).__name__}",
                              "input": sc.canon(c), "error": str(e)[:300]})
     for name, c in spec_bad.items():
-        ctx.broken.append(f"oracle-spec:{'fftn' if name not in ('fftfreq', 'linspace') else name} premise {name} fails "
+        ctx.broken.append(f"oracle-spec:{'fftn' if name not in ('fftfreq', 'linspace') else name} "
+                          f"{'numpy differs from the mathematical DFT (direct evaluation)' if name == 'definition' else 'premise ' + name} fails "
                           f"on {json.dumps(c)[:300]}")
     if corr_bad:
         ctx.broken.append(f"correspondence get_structure_factor: {'generated' if fresh else 'golden'} model and "
